@@ -542,6 +542,11 @@ func (fx *Fx) specIdent(env *SpecEnv, name string) Val {
 		if g, ok := st.ghost[name]; ok {
 			return Val{T: g, S: "Int", GT: types.Typ[types.Int]}
 		}
+		if cl, ok := fx.countLoops[name]; ok {
+			if cur, ok := st.vars[cl.obj]; ok {
+				return Val{T: fmt.Sprintf("(- %s %s)", cur, cl.init), S: "Int", GT: types.Typ[types.Int]}
+			}
+		}
 	}
 	if g, ok := st.ghost["g:"+name]; ok {
 		return Val{T: g, S: "Int", GT: types.Typ[types.Int]}
